@@ -784,6 +784,86 @@ func genJournalC08nb(r *rand.Rand, maxEntries int, nb bool) string {
 	return text
 }
 
+// genJournalC08trail: the shapes on which a token's End used to run on over the blanks behind its
+// lexeme (fix-trailing-blank-ranges): an account name followed by a single blank and `;` `=` `@`
+// `)` `]` or the end of the line; a commodity lexed as text (lower case, mixed case, non-ASCII
+// letters) followed by blanks (or white space that is not a blank) and a comment; an amount
+// followed by blanks and a comment, a cost or an assertion.  Every cursor of every line asks
+// hover / definition / references / prepareRename / rename as for any other document.
+func genJournalC08trail(c *Ctx, r *rand.Rand, nb bool) string {
+	g := &g08{r: r, nb: nb}
+	var lines []string
+	textComm := []string{"usd", "руб", "Ab1", "元", "шт", "kWh", "é"}
+	for n := 1 + r.IntN(3); n > 0; n-- {
+		h := g.date() + " " + g.descr()
+		if r.IntN(3) == 0 {
+			h += " ; " + g.comment()
+		}
+		lines = append(lines, h)
+		for k := 2 + r.IntN(4); k > 0; k-- {
+			l := g.indent()
+			a := g.acct()
+			switch r.IntN(9) {
+			case 0, 1:
+				c.Count("trail.account-blank-comment")
+				l += a + " ;" + g.pick([]string{"", " "}) + g.comment()
+			case 2:
+				c.Count("trail.account-blank-assertion")
+				l += a + " " + g.pick([]string{"=", "=="}) + " " + g.amount()
+			case 3:
+				c.Count("trail.account-blank-cost")
+				l += a + " " + g.pick([]string{"@", "@@"}) + " " + g.amount()
+			case 4:
+				c.Count("trail.account-blank-bracket")
+				if r.IntN(2) == 0 {
+					l += "(" + a + " )"
+				} else {
+					l += "[" + a + " ]"
+				}
+				if r.IntN(2) == 0 {
+					l += g.gap() + g.amount()
+				}
+			case 5:
+				c.Count("trail.account-blank-eol")
+				l += a + " "
+			case 6, 7:
+				c.Count("trail.text-commodity-blanks-comment")
+				sp := g.pick([]string{" ", "  ", "   ", "\t", " \t ", "\u00a0 ", " \v"})
+				l += a + g.gap() + g.pick(c08Nums) + g.pick([]string{" ", ""}) + g.pick(textComm) + sp + ";" +
+					g.pick([]string{"", " "}) + g.comment()
+			default:
+				l += a + g.gap() + g.amount()
+				sp := g.pick([]string{" ", "  ", "   "})
+				switch r.IntN(3) {
+				case 0:
+					c.Count("trail.amount-blanks-comment")
+					l += sp + ";" + g.comment()
+				case 1:
+					c.Count("trail.amount-blanks-cost")
+					l += sp + g.pick([]string{"@", "@@"}) + sp + g.amount()
+					if r.IntN(2) == 0 {
+						l += sp + "; " + g.comment()
+					}
+				default:
+					c.Count("trail.amount-blanks-assertion")
+					l += sp + g.pick([]string{"=", "=="}) + sp + g.amount()
+					if r.IntN(2) == 0 {
+						l += sp + "; " + g.comment()
+					}
+				}
+			}
+			lines = append(lines, l)
+		}
+		lines = append(lines, "")
+	}
+	if r.IntN(3) == 0 {
+		c.Count("trail.directive-text-commodity")
+		lines = append(lines, "commodity "+g.pick(textComm)+g.pick([]string{" ", "  ", "   "})+"; "+g.comment(),
+			"P 2024-01-01 "+g.pick(textComm)+g.pick([]string{" ", "  "})+"; "+g.comment(), "")
+	}
+	return strings.Join(lines, "\n") + "\n"
+}
+
 // c08QuoteAt: the character at UTF-16 offset u of the line is a double quote.
 func c08QuoteAt(line string, u uint32) bool {
 	n := uint32(0)
@@ -902,6 +982,16 @@ func genC08(c *Ctx) {
 		c.Count("docs.quoted-directive")
 		c.Emit("c08.doc", c08Doc(c, genJournalC08quoted(r, i%2 == 0), true))
 	}
+	// tokens followed by blanks: account + single blank, text commodities and amounts followed by
+	// blanks and a comment / cost / assertion (fix-trailing-blank-ranges); one in four with CRLF
+	for i := 0; i < c.N(100, 1000); i++ {
+		c.Count("docs.trailing-blank")
+		text := genJournalC08trail(c, r, i%3 == 0)
+		if i%4 == 3 {
+			text = strings.ReplaceAll(text, "\n", "\r\n")
+		}
+		c.Emit("c08.doc", c08Doc(c, text, true))
+	}
 	// the same kinds of document reached through a history whose superseded diagnostics run
 	// finishes last; the older text differs in line lengths and in characters outside the BMP
 	for i := 0; i < c.N(60, 600); i++ {
@@ -962,4 +1052,7 @@ var c08Fixed = []string{
 		"2024-01-15 * 😀 party 𝄞 ; k:  v, e:, date:2024-01-02\n    a😀b:c  1 \"😀\" @ 2 USD = 3 \"😀\" ; t:   x\n    (x𝄞:y)  -1 USD\n    a😀b:c\n",
 	"2024-01-15 😀\n    a😀b:c  1 USD\n    q\U00010000z:w  bad amount 😀 here\n    a😀b:c  \n",
 	"2024-01-15 x ; k:v,   long-tag_1:    spaced value  , e:\n    a:b  1 ; k:   v\n    c:d\n",
+	// a token ends with its lexeme, not behind the blanks that follow it (fix-trailing-blank-ranges)
+	"2024-01-15 x\n    a:b ;c\n    c:d = 1 USD\n    [e:f ]  1 usd  ; c\n    g:h  1 руб \t; c\n    i:j  1 USD ; c\n    k:l  1 USD  @  2 EUR  =  3 USD  ; c\n    m:n \n",
+	"commodity usd  ; c\nP 2024-01-01 руб  ; c\n2024-01-15 x\n    a:b  1 usd\n",
 }
